@@ -31,17 +31,18 @@ Theorem C05_least_conn_complete : forall mf pool rs,
   existsb (available mf) pool = true -> least_conn_select mf pool rs <> None.
 Proof. exact least_conn_complete. Qed.
 Print Assumptions C05_least_conn_complete.
-(* round robin: complete as long as the uint32 counter does not wrap inside the probe window *)
-Theorem C05_round_robin_complete_nowrap_partial : forall av robin,
-  robin + N.of_nat (length av) < U32 ->
+(* round robin: complete for EVERY value of the uint32 counter, the wrap included (the pool length
+   is converted to uint32 by the code: pools of fewer than 2^32 hosts) *)
+Theorem C05_round_robin_complete : forall av robin,
+  N.of_nat (length av) < U32 ->
   existsb (fun b => b) av = true -> fst (rr_select av robin) <> None.
-Proof. exact rr_complete_nowrap. Qed.
-Print Assumptions C05_round_robin_complete_nowrap_partial.
-(* ... and the full statement fails exactly at the wrap for pool sizes that do not divide 2^32 *)
-Theorem C05_round_robin_complete_wrap_refuted :
-  exists av robin, existsb (fun b => b) av = true /\ fst (rr_select av robin) = None.
-Proof. exact rr_complete_wrap_refuted. Qed.
-Print Assumptions C05_round_robin_complete_wrap_refuted.
+Proof. exact rr_complete. Qed.
+Print Assumptions C05_round_robin_complete.
+Example C05_round_robin_complete_nonvacuous :
+  rr_select [false; false; true] 4294967294 = (Some 2%nat, 2) /\
+  rr_select [false; false; true] 4294967295 = (Some 2%nat, 2) /\
+  rr_run [true; true; true] 4294967294 6 = [Some 0; Some 1; Some 2; Some 0; Some 1; Some 2]%nat.
+Proof. exact rr_wrap_hit. Qed.
 (* the probing coded before the fix (index += i) is incomplete for pools of 3, 5, 6, 7 ... *)
 Theorem C05_hash_triangular_complete_refuted :
   exists av h, existsb (fun b => b) av = true /\ hash_select_triangular av h = None.
@@ -70,9 +71,10 @@ Theorem C05_least_conn_minimal : forall mf pool rs i,
     forall h', In h' pool -> available mf h' = true -> (conns h <= conns h')%Z.
 Proof. exact least_conn_minimal. Qed.
 Print Assumptions C05_least_conn_minimal.
-(* round robin is even: with all backends up, n consecutive selections visit each exactly once *)
+(* round robin is even: with all backends up, n consecutive selections visit each exactly once,
+   for EVERY counter value (also across the uint32 wrap) *)
 Theorem C05_round_robin_even : forall av robin,
-  (0 < length av)%nat -> robin + N.of_nat (length av) < U32 -> forallb (fun b => b) av = true ->
+  (0 < length av)%nat -> N.of_nat (length av) < U32 -> forallb (fun b => b) av = true ->
   forall j, (j < length av)%nat -> In (Some j) (rr_run av robin (length av)) /\
   length (rr_run av robin (length av)) = length av.
 Proof. exact rr_even. Qed.
@@ -127,14 +129,11 @@ Theorem C05_retry_answer_sound :
 Proof. exact retry_answer_sound. Qed.
 Print Assumptions C05_retry_answer_sound.
 
+(* with retries enabled the body is rewound for every attempt, whatever the number of hosts *)
 Theorem C05_attempt_body_rewound : forall (A : Type) nhosts (body : list A) consumed,
-  (1 < nhosts)%nat -> attempt_body (buffered nhosts true) body consumed = body.
+  attempt_body (buffered nhosts true) body consumed = body.
 Proof. intros A. exact (@attempt_body_complete A). Qed.
 Print Assumptions C05_attempt_body_rewound.
-Theorem C05_attempt_body_single_host_refuted :
-  exists (body : list N) consumed, attempt_body (buffered 1 true) body consumed <> body.
-Proof. exact attempt_body_single_host_refuted. Qed.
-Print Assumptions C05_attempt_body_single_host_refuted.
 
 (* ================= discrete-time model of Proxy.ServeHTTP's retry loop (runT) ================= *)
 
@@ -166,14 +165,14 @@ Theorem C05_retry_reaches_healthy :
 Proof. exact runT_reaches_healthy. Qed.
 Print Assumptions C05_retry_reaches_healthy.
 
-(* ... in particular behind staticUpstream.Select with every policy of policy.go (round robin: as
-   long as the uint32 counter does not wrap during the request) *)
+(* ... in particular behind staticUpstream.Select with every policy of policy.go (round robin: for
+   every value of its counter) *)
 Theorem C05_retry_reaches_healthy_policies : forall p c unh scr envdown g dmax,
   reach_hyp c unh scr g dmax = true ->
   (forall it, envdown it g = false) ->
   forall fx0 robin rs fuel,
   live 0 (fx0 g) < t_mf c ->
-  (p = RRobin -> robin + (waste c unh scr g + 1) * N.of_nat (t_n c) < U32) ->
+  N.of_nat (t_n c) < U32 ->
   (N.to_nat (waste c unh scr g) < fuel)%nat ->
   exists j t tr, runT (N * list N) (rsel p) c unh scr envdown fuel 0 fx0 (fun _ => 0%nat) (robin, rs) true 0
                  = (TAnswered j t, tr) /\ answered_ok (t_n c) unh tr (TAnswered j t) = true.
@@ -255,34 +254,25 @@ Theorem C05_retry_final_status_sound :
 Proof. exact runT_answered_ok. Qed.
 Print Assumptions C05_retry_final_status_sound.
 
-(* every attempt gets the complete original body when the body is buffered (hosts > 1 and
-   try_duration <> 0) or the request has none *)
+(* every attempt of a request gets the complete original body: for ANY configuration (any number
+   of hosts, try_duration, fail_timeout, max_fails), any selector, any fault scripts.  The body is
+   buffered and rewound whenever there can be a second attempt (try_duration <> 0). *)
 Theorem C05_attempt_body_complete :
   forall (S : Type) (sel : S -> list bool -> option nat * S) c unh scr envdown,
-  negb (t_hasbody c) || t_buf c = true ->
-  forall fuel now fx cnt st fresh it,
-  bodies_ok (snd (runT S sel c unh scr envdown fuel now fx cnt st fresh it)) = true /\
+  forall fuel now fx cnt st it,
+  bodies_ok (snd (runT S sel c unh scr envdown fuel now fx cnt st true it)) = true /\
   forall (A : Type) (body : list A) t i k rx ok te,
-    In (EAttempt t i k rx ok te) (snd (runT S sel c unh scr envdown fuel now fx cnt st fresh it)) ->
+    In (EAttempt t i k rx ok te) (snd (runT S sel c unh scr envdown fuel now fx cnt st true it)) ->
     rx_bytes body rx = None \/ rx_bytes body rx = Some body.
 Proof. exact body_complete_top. Qed.
 Print Assumptions C05_attempt_body_complete.
-Example C05_attempt_body_complete_nonvacuous : negb (t_hasbody exA_c) || t_buf exA_c = true.
-Proof. exact exA_buffered. Qed.
-(* ... false for the unbuffered single-host pool: max_fails 2, the host is tried again, the second
-   forward finds the body closed and the request ends with 502 *)
-Theorem C05_attempt_body_complete_unbuffered_refuted :
-  t_buf exB_c = false /\
-  bodies_ok (snd (runT _ (rsel RFirst) exB_c (unh_of [false]) exB_scr no_env 20 0 fx_none cnt0 (0, []) true 0)) = false /\
-  exists t, fst (runT _ (rsel RFirst) exB_c (unh_of [false]) exB_scr no_env 20 0 fx_none cnt0 (0, []) true 0) = T502 t.
-Proof. exact body_unbuffered_refuted. Qed.
-Print Assumptions C05_attempt_body_complete_unbuffered_refuted.
-(* ... what remains true without buffering: the first forward that runs gets the complete body *)
-Theorem C05_attempt_body_first_attempt_partial :
-  forall (S : Type) (sel : S -> list bool -> option nat * S) c unh scr envdown fuel now fx cnt st it,
-  first_attempt_ok (snd (runT S sel c unh scr envdown fuel now fx cnt st true it)) = true.
-Proof. exact runT_first_attempt_ok. Qed.
-Print Assumptions C05_attempt_body_first_attempt_partial.
+(* the pool of ONE host that is tried again (max_fails 2): the second forward receives the complete
+   body again and answers *)
+Example C05_attempt_body_complete_single_host :
+  t_n exB_c = 1%nat /\
+  runT _ (rsel RFirst) exB_c (unh_of [false]) exB_scr no_env 20 0 fx_none cnt0 (0, []) true 0 =
+  (TAnswered 0 3, [EAttempt 0 0 KFailAfter RxFull false 1; EAttempt 3 0 KOk RxFull true 3]).
+Proof. exact exB_single_host_replayed. Qed.
 
 (* a host is only used (forwarded to, or acquired) while fewer than max_fails of the failures this
    request has seen on it are unexpired: failed hosts are skipped until fail_timeout has passed *)
@@ -295,65 +285,27 @@ Print Assumptions C05_failed_hosts_skipped_until_expiry.
 
 (* ================= round robin across the uint32 wrap ================= *)
 
-(* EXACT completeness for every counter value, wrap included: RoundRobin.Select returns a host iff
-   one of the n slots ((robin + k) mod 2^32) mod n, k = 1..n, is available *)
-Theorem C05_round_robin_complete_exact : forall av robin,
-  fst (rr_select av robin) <> None <->
-  exists k, (k < length av)%nat /\
-    nth (N.to_nat (((robin + 1 + N.of_nat k) mod U32) mod N.of_nat (length av))) av false = true.
-Proof. exact rr_complete_exact. Qed.
-Print Assumptions C05_round_robin_complete_exact.
-(* pool sizes that divide 2^32 (1, 2, 4, 8, ...) are complete for EVERY counter value *)
-Theorem C05_round_robin_complete_divides : forall av robin,
-  U32 mod N.of_nat (length av) = 0 ->
-  existsb (fun b => b) av = true -> fst (rr_select av robin) <> None.
-Proof. exact rr_complete_divides. Qed.
-Print Assumptions C05_round_robin_complete_divides.
-Example C05_round_robin_complete_divides_nonvacuous :
-  U32 mod 4 = 0 /\ fst (rr_select [false; false; true; false] 4294967294) = Some 2%nat.
-Proof. exact rr_wrap_pow2. Qed.
-(* any other pool size: the wrap costs at most the ONE Select that straddles it (C05_round_robin_complete_wrap_refuted);
-   the counter is then just past the wrap and the next Select finds a host *)
-Theorem C05_round_robin_miss_then_hit : forall av robin,
-  robin < U32 -> N.of_nat (length av) + N.of_nat (length av) <= U32 ->
-  existsb (fun b => b) av = true ->
-  fst (rr_select av robin) = None ->
-  U32 <= robin + N.of_nat (length av) /\
-  snd (rr_select av robin) = robin + N.of_nat (length av) - U32 /\
-  fst (rr_select av (snd (rr_select av robin))) <> None.
-Proof. exact rr_miss_then_hit. Qed.
-Print Assumptions C05_round_robin_miss_then_hit.
-Example C05_round_robin_miss_then_hit_nonvacuous :
-  fst (rr_select [false; false; true] 4294967294) = None /\
-  snd (rr_select [false; false; true] 4294967294) = 1 /\
-  fst (rr_select [false; false; true] 1) = Some 2%nat.
-Proof. exact rr_wrap_miss_hit. Qed.
+(* EXACT probe order for every counter value, wrap included: RoundRobin.Select probes the n slots
+   s, s+1, ..., s+n-1 (mod n) in this order, s = ((robin + 1) mod 2^32) mod n, and returns the first
+   available one *)
+Theorem C05_round_robin_exact : forall av robin,
+  N.of_nat (length av) < U32 ->
+  fst (rr_select av robin) =
+  probe_seq av (seg (N.of_nat (length av)) (rr_start (N.of_nat (length av)) robin) (length av)).
+Proof. exact rr_exact. Qed.
+Print Assumptions C05_round_robin_exact.
 
-(* evenness, wrap included.  With all hosts up the k-th selection is slot ((robin+k) mod 2^32) mod n
-   for EVERY counter value; over a window of k*n selections (at most one wrap inside) every host is
-   chosen exactly k times if the counter does not wrap inside the window and k-1, k or k+1 times if it
-   does; when n divides 2^32 every window of n selections visits every host, also across the wrap;
-   for other sizes the window that straddles the wrap skips a host *)
+(* evenness, wrap included.  With all hosts up, m consecutive selections are m consecutive slots for
+   EVERY counter value, and over a window of k*n selections every host is chosen exactly k times *)
 Theorem C05_round_robin_counts : forall av robin k j,
-  (0 < length av)%nat -> forallb (fun b => b) av = true -> robin < U32 ->
-  N.of_nat (k * length av) <= U32 -> (j < length av)%nat ->
-  rr_run av robin (k * length av) = map Some (rr_idxs (N.of_nat (length av)) robin (k * length av)) /\
-  let c := cnt j (rr_idxs (N.of_nat (length av)) robin (k * length av)) in
-  (k - 1 <= c <= k + 1)%nat /\ (robin + N.of_nat (k * length av) < U32 -> c = k).
+  (0 < length av)%nat -> N.of_nat (length av) < U32 -> forallb (fun b => b) av = true ->
+  (j < length av)%nat ->
+  rr_run av robin (k * length av) =
+    map Some (seg (N.of_nat (length av)) (rr_start (N.of_nat (length av)) robin) (k * length av)) /\
+  cnt j (seg (N.of_nat (length av)) (rr_start (N.of_nat (length av)) robin) (k * length av)) = k.
 Proof. exact rr_counts_run. Qed.
 Print Assumptions C05_round_robin_counts.
 Example C05_round_robin_counts_nonvacuous :
-  rr_idxs 3 4294967293 6 = [2; 0; 0; 1; 2; 0]%nat /\
-  cnt 0 (rr_idxs 3 4294967293 6) = 3%nat /\ cnt 1 (rr_idxs 3 4294967293 6) = 1%nat.
+  seg 3 (rr_start 3 4294967293) 6 = [2; 0; 1; 2; 0; 1]%nat /\
+  cnt 0 (seg 3 (rr_start 3 4294967293) 6) = 2%nat /\ cnt 1 (seg 3 (rr_start 3 4294967293) 6) = 2%nat.
 Proof. exact rr_counts_wrap. Qed.
-Theorem C05_round_robin_even_divides : forall av robin,
-  (0 < length av)%nat -> U32 mod N.of_nat (length av) = 0 -> forallb (fun b => b) av = true ->
-  forall j, (j < length av)%nat -> In (Some j) (rr_run av robin (length av)) /\
-  length (rr_run av robin (length av)) = length av.
-Proof. exact rr_even_divides. Qed.
-Print Assumptions C05_round_robin_even_divides.
-Theorem C05_round_robin_even_wrap_refuted :
-  exists av robin j, forallb (fun b => b) av = true /\ (j < length av)%nat /\
-    ~ In (Some j) (rr_run av robin (length av)).
-Proof. exact rr_even_wrap_refuted. Qed.
-Print Assumptions C05_round_robin_even_wrap_refuted.
